@@ -34,6 +34,9 @@ const (
 	FDelay       = "delay"
 	FChunk       = "chunk"
 	FRefuse      = "refuse"
+	// FHold leaves the request pending for this step (the policy did
+	// something else, e.g. cancelled the caller's context).
+	FHold = "hold"
 )
 
 // FaultSpec says how one pending request is answered.
@@ -435,8 +438,14 @@ func (n *Net) RequestAction(p *Parked) *Action {
 			spec = n.Policy(q)
 		}
 		n.r.Logf("~net", "%s -> %s", q.String(), spec.String())
+		if spec.Kind == FHold {
+			return
+		}
 		n.r.Release(p, spec)
 	}}
 }
 
 var ErrSim = errors.New("simulated error")
+
+func (s *Server) NumDials() int { return s.ndial }
+func (s *Server) NumReqs() int  { return s.nreq }
